@@ -4,6 +4,7 @@
 //@ include lib_spec.rs
 verus! {
 
+// (R2 wrapper kept for refactorings that use Vec::extend)
 // R2 wrapper: `results.extend(v)` for v: Vec<T>  (body is the original call)
 #[verifier::external_body]
 pub fn vf_extend<T>(v: &mut Vec<T>, w: Vec<T>)
@@ -20,27 +21,45 @@ impl NetflowParser {
 //@   ensures: final(self).allowed_versions == old(self).allowed_versions
 //@   ensures: pviews_eq(pviews(out@), spec_pb(state_of(*old(self)), old(self).allowed_versions@, packet@).0)
 //@   ensures: state_of(*final(self)) == spec_pb(state_of(*old(self)), old(self).allowed_versions@, packet@).1
-//@   decreases: packet@.len()
-//@   rules: R2
-//@   before "if packet.is_empty()": broadcast use lemma_cloned_u8; broadcast use lemma_subres_eq;
-//@   before "match self.parse_packet_by_version(packet)": let ghost st0 = state_of(*self); let ghost al = self.allowed_versions@;
-//@   before "let mut results": let ghost st1 = state_of(*self);
-//@   before "results }": proof {
-//@         let sp = spec_pb(st0, al, packet@);
-//@         let pk = parsed_netflow.result;
-//@         let rem = parsed_netflow.remaining@;
-//@         assert(pp_spec(st0, al, packet@).0 == SubRes::Ok { pkt: pk, rem: rem });
-//@         if rem.len() == 0 {
-//@             assert(results@ =~= seq![pk]);
-//@             assert(pviews(results@) =~= seq![pview(pk)]);
-//@         } else {
-//@             let rec = spec_pb(st1, al, rem);
-//@             let tail = results@.subrange(1, results@.len() as int);
-//@             assert(sp.0 == seq![pview(pk)] + rec.0);
-//@             lemma_pviews_eq(pviews(tail), rec.0);
-//@             assert(pviews(results@) =~= seq![pview(pk)] + pviews(tail));
-//@         }
-//@     }
+//@   before "let mut results = vec![];": broadcast use lemma_cloned_u8; broadcast use lemma_subres_eq;
+//@       let ghost st0 = state_of(*self); let ghost al = self.allowed_versions@; let ghost av = self.allowed_versions;
+//@       proof { assert(packet@.subrange(0, packet@.len() as int) =~= packet@); assert(pviews(Seq::<NetflowPacket>::empty()) =~= Seq::<PView>::empty()); }
+//@   loop 0: invariant_except_break
+//@           offset <= packet@.len(),
+//@           self.allowed_versions == av, av@ == al,
+//@           pviews(results@) + spec_pb(state_of(*self), al, packet@.subrange(offset as int, packet@.len() as int)).0 == spec_pb(st0, al, packet@).0,
+//@           spec_pb(state_of(*self), al, packet@.subrange(offset as int, packet@.len() as int)).1 == spec_pb(st0, al, packet@).1,
+//@       ensures
+//@           self.allowed_versions == av,
+//@           pviews(results@) == spec_pb(st0, al, packet@).0,
+//@           state_of(*self) == spec_pb(st0, al, packet@).1,
+//@       decreases packet@.len() - offset
+//@   before "match self.parse_packet_by_version(current)": let ghost stk = state_of(*self); let ghost res0 = results@;
+//@       proof { assert(current@ == packet@.subrange(offset as int, packet@.len() as int)); }
+//@   after "results.push(parsed_netflow.result);": proof {
+//@       let pk = parsed_netflow.result;
+//@       let rem = parsed_netflow.remaining@;
+//@       assert(pp_spec(stk, al, current@).0 == SubRes::Ok { pkt: pk, rem: rem });
+//@       assert(pviews(results@) =~= pviews(res0) + seq![pview(pk)]);
+//@       let k = offset + (current@.len() - rem.len());
+//@       assert(packet@.subrange(k, packet@.len() as int) =~= rem);
+//@       if rem.len() == 0 {
+//@           assert(spec_pb(state_of(*self), al, rem).0 =~= Seq::<PView>::empty());
+//@           assert(pviews(results@) + spec_pb(state_of(*self), al, rem).0 =~= pviews(res0) + seq![pview(pk)]);
+//@       } else {
+//@           assert(spec_pb(stk, al, current@).0 == seq![pview(pk)] + spec_pb(state_of(*self), al, rem).0);
+//@           assert(pviews(results@) + spec_pb(state_of(*self), al, rem).0 =~= pviews(res0) + (seq![pview(pk)] + spec_pb(state_of(*self), al, rem).0));
+//@       }
+//@   }
+//@   after "remaining: current.to_vec(), }));": proof {
+//@       let ev = results@.last();
+//@       assert(pviews(results@) =~= pviews(res0) + seq![pview(ev)]);
+//@       let r1 = pp_spec(stk, al, current@).0;
+//@       assert(r1 is Err && !(r1->Err_0 is Unallowed));
+//@       assert(ev matches NetflowPacket::Error(ee) && ee.remaining@ =~= current@ && eview(ee.error) == r1->Err_0);
+//@       assert(pview(ev) == PView::Err { kind: r1->Err_0, remaining: current@ });
+//@       assert(spec_pb(stk, al, current@).0 =~= seq![pview(ev)]);
+//@   }
 //@ end
 }
 
